@@ -3,6 +3,7 @@ of the tree on PYTHONPATH with the real ProtocolHub.
 
 stdin (JSON), all fields optional:
   "messages": [[factory_name, n, seed, target_or_null], ...]   build real hub messages
+  "sender_seq": [index into messages, ...]                     one DevInThread framing these messages in a row
   "pbmut":    true                                             protobuf-level value mutations of every kind
   "parse":    [payload_hex | [payload_hex, hub_version], ...]  standalone hub.parse outcomes, computed in forked
                                                                children (one per domain and hub version)
@@ -15,7 +16,7 @@ stdout: RESULT {"messages": [{"ser": hex, "frame": hex, "rt": outcome of hub.par
                 "sweep": {"n": count, "obs": [[token_indices, [hex...], exc|null], ...] (only streams that deliver/raise),
                           "deviations": [...], "table": [[hex, outcome]], "runs": total}}
 outcome = ["same", class] | ["msg", hex, class] | ["none"] | ["raise", exception class]
-Messages are built (one forked child per domain) as FRESH objects: the frame comes from
+Messages are built (one forked child per message) as FRESH objects: the frame comes from
 DevInThread.serialize(obj) on an object never serialized before, "ser" from another fresh object.
 """
 import sys, os, json, logging, random, itertools, signal
@@ -226,6 +227,10 @@ FACTORIES = {
     "ble.pdu": lambda b, r: HUB.ble.create_pdu_received(BleDirection.SLAVE_TO_MASTER, b, r.randrange(1, 0xffff), processed=bool(r.randrange(2))),
     "ble.send_pdu": lambda b, r: HUB.ble.create_send_pdu(BleDirection.MASTER_TO_SLAVE, b, r.randrange(1, 64)),
     "ble.adv_mode": lambda b, r: HUB.ble.create_adv_mode(b[:31], b[31:62] or None),
+    # one protobuf kind (ble.prepare) whose wrapper class depends on the CONTENT (the trigger)
+    "ble.prepare_manual": lambda b, r: HUB.ble.create_prepare_sequence_manual(r.randrange(1, 200), BleDirection.MASTER_TO_SLAVE, [b[:20] or b"\x01\x02", b"\xac\xbe"]),
+    "ble.prepare_connevt": lambda b, r: HUB.ble.create_prepare_sequence_conn_evt(r.randrange(1, 200), BleDirection.SLAVE_TO_MASTER, r.randrange(1, 5000), [b[:20] or b"\x03"]),
+    "ble.prepare_pattern": lambda b, r: HUB.ble.create_prepare_sequence_pattern(r.randrange(1, 200), BleDirection.MASTER_TO_SLAVE, b"\x0a\xac", b"\xff\xff", r.randrange(0, 8), [b[:20] or b"\x04\x05"]),
     "ble.start": lambda b, r: HUB.ble.create_start(),
     "ble.stop": lambda b, r: HUB.ble.create_stop(),
     "ble.disconnected": lambda b, r: HUB.ble.create_disconnected(r.randrange(1, 255), r.randrange(1, 0xffff)),
@@ -395,10 +400,12 @@ def build_message(name, n, seed, target):
 
 
 def build_messages(specs):
-    """one forked child per domain (names of different domains never meet in one process)"""
+    """one forked child per message: neither names of other domains nor other messages of the same
+    kind (whose wrapper class may depend on the content) have been handled when a message is built
+    and its own round trip through hub.parse is taken as the expected identity"""
     groups = {}
     for i, sp in enumerate(specs):
-        groups.setdefault(sp[0].split(".")[0], []).append(i)
+        groups.setdefault(i, []).append(i)
     out = [None] * len(specs)
     for _dom, idxs in groups.items():
         def work(idxs=idxs):
@@ -541,6 +548,20 @@ def main():
     res = {}
     if "messages" in req:
         res["messages"] = build_messages(req["messages"])
+    if "sender_seq" in req and "messages" in req:
+        # ONE DevInThread framing a whole sequence of fresh messages, one after the other, in one
+        # (forked) process: a sender that keeps state between messages shows here
+        specs = req["messages"]
+        def seq_work():
+            out = []
+            for i in req["sender_seq"]:
+                try:
+                    m = build_message(*specs[i])
+                    out.append({"i": i, "name": m["name"], "frame": m["frame"], "ser": m["ser"]})
+                except Exception as e:  # noqa
+                    out.append({"i": i, "name": specs[i][0], "exc": type(e).__name__})
+            return out
+        res["sender_seq"] = isolated(seq_work)
     if req.get("pbmut"):
         res["pbmut"] = pb_mutations()
     if "parse" in req:
